@@ -7,6 +7,8 @@ RULES = ['LINEAR-HOLD', 'NO-DOUBLE-REL', 'RETAIN-ONCE', 'EMIT-BALANCE', 'REMOVE-
 FLOORS = {'LINEAR-HOLD': 13, 'RETAIN-ONCE': 13, 'REMOVE-RELEASES': 18, 'REL-SHAPE': 50, 'EMIT-BALANCE': 1,
           'NO-DOUBLE-REL': 15, 'EMITTED-STILL-HELD': 1}
 
+META = {'level': "Static ownership accounting on every enumerated path of every node method: each retain is stored/released/handed on (LINEAR-HOLD), every removal from a taint-discovered metadata container releases what it removed (REMOVE-RELEASES), no double release, _emit's retain/release balance, flat-list shape of everything handed to _emit/_retain_refs/_release_refs. Necessary conditions of balance; the run-time equality 'count == live holders' is not decided.", 'note': 'Trusted: CPython ast, evaluation order as encoded, shape lattice transfer functions, exception tables (combining nodes, zip_latest scratch slot) printed in the evidence. One genuine defect is a known finding (latest keeps its hold after emitting; pinned by test_latest_ref_counts).', 'technique': 'static analysis: bounded path enumeration + linear-ownership rules and a shape lattice (LINEAR-HOLD, REMOVE-RELEASES, NO-DOUBLE-REL, EMIT-BALANCE, REL-SHAPE, EMITTED-STILL-HELD)'}
+
 
 def run(ctx, R):
     R.explanation = (
